@@ -4,7 +4,7 @@
    result Ok/Err); parse_eid / print_eid = object.NewExtendedSpatialID / ID(); parse_sid / print_sid = a spatial ID z/f/x/y read as / written from
    the voxel record with both zooms z; expand_eid = transform.ConvertExtendedSpatialIDToSpatialIDs; voxel_id = transform.GetVoxelIDfromSpatialID;
    inR i p = the point p (normalised coordinates) lies in the half-open box of voxel i. *)
-From Coq Require Import ZArith String List Bool Permutation Reals Lia.
+From Coq Require Import ZArith String Ascii List Bool Permutation Reals Lia.
 From SIDGen Require Generated.
 From SID Require Import Base Str Ids Voxel ZoomCore GenEqZoom Notation.
 Import ListNotations.
@@ -203,7 +203,7 @@ Print Assumptions C10_reset_sequence_holds_of_model.
 (* ---- 11. the setters of the object, ON THE MODEL (apply_setter = record update; these two facts unfold the model's definition and say
             nothing about the Go code by themselves — the tie is the differential run of the ObjectSetters entry, whose checker is below):
             setters of distinct fields commute; after the four setters ID() prints the five set values in the order hZoom/x/y/vZoom/z ---- *)
-Theorem C10_setters_commute : forall st c d, setter_field c <> 4%nat -> setter_field d <> 4%nat -> setter_field c <> setter_field d ->
+Theorem C10_setters_commute : forall st c d, (setter_field c < 4)%nat -> (setter_field d < 4)%nat -> setter_field c <> setter_field d ->
   apply_setter (apply_setter st c) d = apply_setter (apply_setter st d) c.
 Proof. exact setters_commute. Qed.
 Print Assumptions C10_setters_commute.
@@ -220,6 +220,46 @@ Theorem C10_setters_hold_of_model : forall l, all_fields_ok l ->
           (map (fun o => (fst o, print_eid (snd o), field_params (snd o), field_params (snd o))) (run_setters zero_eid l)).
 Proof. exact setters_model_spec. Qed.
 Print Assumptions C10_setters_hold_of_model.
+
+(* get-set and frame laws, ON THE MODEL: a getter after its own setter returns the value set, every other getter is unchanged *)
+Theorem C10_get_set_and_frame_laws : forall st x y z h v,
+  let gx := apply_setter st (SX x) in let gy := apply_setter st (SY y) in let gz := apply_setter st (SZ z) in let gm := apply_setter st (SZoom h v) in
+  (ex gx = x /\ eh gx = eh st /\ ey gx = ey st /\ ev gx = ev st /\ ef gx = ef st) /\
+  (ey gy = y /\ eh gy = eh st /\ ex gy = ex st /\ ev gy = ev st /\ ef gy = ef st) /\
+  (ef gz = z /\ eh gz = eh st /\ ex gz = ex st /\ ey gz = ey st /\ ev gz = ev st) /\
+  (eh gm = h /\ ev gm = v /\ ex gm = ex st /\ ey gm = ey st /\ ef gm = ef st).
+Proof. exact get_set_frame. Qed.
+Print Assumptions C10_get_set_and_frame_laws.
+(* the record after step k of a constructor/setter script is the fold of the first k+1 commands over the start record; the checker below
+   demands that ID(), FieldParams() and the five getters of the real object read back exactly that record after every step *)
+Theorem C10_state_after_script : forall st l k o, nth_error (run_setters st l) k = Some o -> snd o = fold_left apply_setter (firstn (S k) l) st.
+Proof. exact state_after_script. Qed.
+Print Assumptions C10_state_after_script.
+
+(* ---- 12. two parses never alias: the string is parsed twice (objects A, B), a script runs on A, the string is parsed a third time (C).
+            On the model every parse yields a fresh record, so B and C are the parsed record whatever the script did to A; the run-time
+            checker demands exactly that of the real objects (a constructor handing out a cached pointer fails it) ---- *)
+Theorem C10_two_parses_do_not_alias : forall s l i, parse_eid s = Some i -> alias_model s l = Some (fold_left apply_setter l i, i, i).
+Proof. exact alias_untouched. Qed.
+Print Assumptions C10_two_parses_do_not_alias.
+Theorem C10_checker_aliasing : forall s l obs, check_alias s l obs = true <-> alias_spec s l obs.
+Proof. exact check_alias_sound. Qed.
+Print Assumptions C10_checker_aliasing.
+Theorem C10_aliasing_holds_of_model : forall s l, all_fields_ok l ->
+  alias_spec s l (match alias_model s l with Some (a, b, c) => Some (rb_of a, rb_of b, rb_of c) | None => None end).
+Proof. exact alias_model_spec. Qed.
+Print Assumptions C10_aliasing_holds_of_model.
+
+(* ---- 13. the delimiter: the "/" at which the parser model splits and the printer model joins is the constant consts.SpatialIDDelimiter of
+            the Go code, regenerated from /repo on every run (an edit of that constant breaks this obligation) ---- *)
+Theorem C10_delimiter_is_the_generated_constant :
+  bytes_to_string Generated.SpatialIDDelimiter = String slash EmptyString /\
+  Generated.SpatialIDDelimiter = [Z.of_nat (nat_of_ascii slash)] /\
+  (forall i, print_eid i = String.concat (bytes_to_string Generated.SpatialIDDelimiter)
+                                        [print (eh i); print (ex i); print (ey i); print (ev i); print (ef i)]) /\
+  (forall l, join l = String.concat (bytes_to_string Generated.SpatialIDDelimiter) l).
+Proof. exact delimiter_is_generated. Qed.
+Print Assumptions C10_delimiter_is_the_generated_constant.
 
 (* ---- non-vacuity and witnesses ---- *)
 (* both round trips on concrete lists with x <> y <> f, negative f, duplicates *)
@@ -257,3 +297,10 @@ Example C10_nonvacuous_wide_fields :
   print_eid (mk 35 4294967301 17 20 3) = "35/4294967301/17/20/3"%string /\
   print_eid (apply_setter (apply_setter zero_eid (SX 8589934601)) (SZ (- 2 ^ 62))) = "0/8589934601/0/0/-4611686018427387904"%string.
 Proof. split; [unfold valid; cbn; lia|]. vm_compute. repeat split; reflexivity. Qed.
+(* a script with a constructor in the middle, and the aliasing model: the untouched parses keep the parsed record *)
+Example C10_nonvacuous_script_and_aliasing :
+  map snd (run_setters zero_eid [SNew "3/1/2/4/-5"; SX 7; SNew "3/1/2/4/-5"; SZoom 9 8; SReset "x"; SNew "bad"])
+    = [mk 3 1 2 4 (-5); mk 3 7 2 4 (-5); mk 3 1 2 4 (-5); mk 9 1 2 8 (-5); mk 9 1 2 8 (-5); mk 0 0 0 0 0] /\
+  alias_model "3/1/2/4/-5" [SX 7; SZ 0] = Some (mk 3 7 2 4 0, mk 3 1 2 4 (-5), mk 3 1 2 4 (-5)) /\
+  String.concat (bytes_to_string Generated.SpatialIDDelimiter) ["3"; "1"; "2"; "4"; "-5"]%string = "3/1/2/4/-5"%string.
+Proof. vm_compute. repeat split; reflexivity. Qed.
